@@ -63,6 +63,7 @@ Extraction "model.ml"
   ser_ok
   labels_valid
   lab_seq
+  lab_closed
   comp_labeled
   par_comp_labeled
   lab_read_seq
